@@ -60,6 +60,40 @@ def minmax_shape(prog, sc, term, fn_, uname, dest):
     return names == sorted([dest + "@Some.0", uname])
 
 
+def winprops_inherit(ctx, prog):
+    """WinProps.{is_tenv, bounds, multiplier} are those of the window's wall (needed when K selects windows by their own attributes)"""
+    ep = prog.method("energy::props::EnergyProps", "convert::From", "from")
+    esc = Scope(prog, ep)
+    wl = [(sc, sc.rvalue(s["rv"]), s.get("ln")) for sc in esc.all_scopes() for b, i, s in sc.body.statements()
+          if s["s"] == "assign" and s["rv"]["r"] == "agg" and s["rv"].get("adt", "").endswith("props::WinProps")]
+    ctx.require(len(wl) == 1, "WinProps literal not found")
+    sc, n, ln = wl[0]
+    fl = dict(zip(n[2], n[3]))
+    from ..exprs import mkproj
+    wallp = [sc2.rvalue(s2["rv"]) for sc2 in esc.all_scopes() for b, i, s2 in sc2.body.statements()
+             if s2["s"] == "assign" and s2["rv"]["r"] == "agg" and s2["rv"].get("adt", "").endswith("props::WallProps")]
+    ctx.require(len(wallp) == 1, "WallProps literal not found")
+    wall_tenv = origin_desc(strip(dict(zip(wallp[0][2], wallp[0][3]))["is_tenv"]))
+    for fld, ok in (("is_tenv", lambda d, r: "contains(" in d and d.endswith("model.windows[].wall)") and d == wall_tenv.replace("model.walls[].id)", "model.windows[].wall)")),
+                    ("bounds", lambda d, r: "get(walls,model.windows[].wall)" in d and r is not None and r.endswith("@Some.0.bounds")),
+                    ("multiplier", lambda d, r: "get(walls,model.windows[].wall)" in d and r is not None and r.endswith("@Some.0.multiplier"))):
+        node = strip(fl[fld])
+        d = origin_desc(node)
+        r = None
+        cur = node
+        # unwrap_or_default(map(opt, closure)) / map_or(opt, default, closure)
+        if cur[0] == "call" and short_callee(cur[1]) in ("unwrap_or_default", "unwrap_or") and cur[2]:
+            cur = strip(cur[2][0])
+        if cur[0] == "call" and short_callee(cur[1]) in ("map", "map_or") and len(cur[2]) >= 2:
+            rr = closure_return(prog, sc, cur[2][-1], mkproj(strip(cur[2][0]), ("@Some", ".0")))
+            r = origin_desc(rr) if rr else None
+        key = "c08.prov|WinProps.%s" % fld
+        if ok(d, r):
+            ctx.ok("c08.prov", key, "WinProps.%s is inherited from the window's wall" % fld, ep.loc(ln))
+        else:
+            ctx.violation("c08.prov", key, "K selects windows by their own %s, but WinProps.%s is %s (closure value %s), not the wall's" % (fld, fld, d[:100], r), ep.loc(ln))
+
+
 def run(ctx):
     prog = ctx.prog
     f = prog.method("energy::indicators::k::KData", "convert::From", "from")
@@ -75,10 +109,15 @@ def run(ctx):
     ctx.require(len(wfil) == 1, "KData::from: window filter not found")
     rn = returned_nodes(wfil[0].body)
     d0 = origin_desc(strip(wfil[0]._rw(rn[0][1]))) if len(rn) == 1 else ""
+    own_scope = False
     if "eq(" in d0 and "props.windows[].1.wall" in d0 and "props.walls[].0" in d0:
         ctx.ok("c08.scope", "c08.scope|windows", "windows are taken through their wall (win.wall == wall_id), inheriting its scope", f.loc())
     else:
-        ctx.violation("c08.scope", "c08.scope|windows", "window filter is %s" % d0[:100], f.loc())
+        # windows selected by their own (inherited) attributes: the same truth table must hold, and the attributes must be the wall's
+        own_scope = True
+        scope_table(ctx, "c08.scope", "c08.scope|windows", wfil[0], ["is_tenv", "bounds"], {"bounds": bt},
+                    lambda a: a["is_tenv"] and a["bounds"] in ("EXTERIOR", "GROUND"), f.loc())
+        winprops_inherit(ctx, prog)
 
     ups = updates(root)
     byd = {}
@@ -86,6 +125,8 @@ def run(ctx):
         byd.setdefault(u["dest"], []).append(u)
     lm = LeafMap({"props.walls[].1.multiplier": "m", "props.windows[].1.area": "aw", "props.walls[].1.area_net": "an", "win_u": "Uw", "wall_u": "Uo",
                   "props.thermal_bridges[].l": "L", "props.thermal_bridges[].psi": "psi"})
+    if own_scope:
+        lm["props.windows[].1.multiplier"] = "m"
     spec = [("k.windows.a", "m * aw"), ("k.windows.au", "m * aw * Uw"), ("element_case.a", "m * an"), ("element_case.au", "m * an * Uo"),
             ("tb_case.l", "L"), ("tb_case.psil", "psi * L")]
     nacc = 0
